@@ -154,6 +154,78 @@ def socket_checks(ck, tier, for_prop='C13'):
                 ck.inconclusive.append('native loopback run of the fixed-split scenarios does not show the engine\'s result: ' + got.hex())
 
 
+def client_level(ck, tier):
+    """the whole connection loop on [oversized request with ANY opcode < 0x25, body fully sent][noop]: the oversized request is
+    answered 0x03 echoing its opcode and opaque, and the noop behind it is served - for every opcode"""
+    import struct
+    from .C12 import native_seq
+    E = ck.E
+    st = St(1)
+    opc = z3.BitVec('big_opcode', 8)
+    body_len = 1025
+    total_len = 24 + body_len + 24
+
+    def h(E):
+        E.assume(limit == 1024, z3.ULT(opc, 0x25))
+        E.assume(z3.Not(st.present[0]), st.cas_id == 1, st.now == 0)
+        for c in st.wellformed():
+            E.assume(c)
+        hdr = struct.pack('>BBHBBHIIQ', 0x80, 0, 1, 0, 0, 0, body_len, 0x4242, 0)
+        for j, b in enumerate(hdr):
+            if j == 1:
+                E.assume(z3.Select(HC.WIRE, BV(1)) == opc)
+                continue
+            E.assume(z3.Select(HC.WIRE, BV(j)) == b)
+            E.known_bytes[j] = b
+        noop = frame(0x0a, opaque=0x5a5a5a5a)
+        off = 24 + body_len
+        for j, b in enumerate(noop):
+            E.assume(z3.Select(HC.WIRE, BV(off + j)) == b)
+            E.known_bytes[off + j] = b
+        s = SC.Stream(0)
+        s.total = BV(total_len)
+        x = SC.run_client(E, st, s, end='eof', max_reads=3)
+        x.nreads = sum(1 for e in E.events if e[0] == 'read' and not isinstance(e[1], str))
+        return x
+    res = ck.explore(h)
+    for p in res:
+        if p.status == 'panic':
+            ck.obligation('client: no panic on an oversized request of any opcode', p.pc, z3.BoolVal(False), {}, None, [])
+            continue
+        if p.status != 'ok':
+            continue
+        x = p.out
+        mdl = ck.solve(p.pc)
+        if mdl is None or mdl == 'unknown':
+            continue
+        good = len(x.out) == 2
+        cond = z3.BoolVal(good)
+        if good:
+            r0, r1 = HC.RespView(E, x.out[0]), HC.RespView(E, x.out[1])
+            cond = z3.And(r0.status == 3, r0.opcode == opc, r0.opaque == 0x4242, r1.opcode == 0x0a, r1.status == 0, r1.opaque == 0x5a5a5a5a)
+
+        def on_w(m, where, x=x):
+            data = wire_bytes(m, total_len)
+            cuts, pos = [], 0
+            for i in range(x.nreads):
+                k = mval(m, z3.BitVec('n' if i == 0 else f'n!{i}', 64))
+                if k:
+                    cuts.append(data[pos:pos + k])
+                    pos += k
+            if pos < total_len:
+                cuts.append(data[pos:])
+            sc = {'kind': 'socket', 'item_limit': 1024, 'timeout_secs': 1,
+                  'conns': [{'chunks': [c.hex() for c in cuts if c], 'pause_ms': 60, 'read_ms': 500, 'end': 'hold'}]}
+            out = ck.replay([sc])[0]
+            nseq, nclosed = native_seq(out)
+            op = mval(m, opc)
+            desc = f"oversized request (body 1025 > limit 1024) with opcode 0x{op:02x} followed by a noop: server answered {nseq}, closed={nclosed}"
+            ok_ = nseq == [(op, 0x4242), (0x0a, 0x5a5a5a5a)]
+            return (None if ok_ else True), desc, sc
+        ck.obligation('client: an oversized request of any opcode is answered 0x03 and the following request is served', p.pc, cond, {}, on_w, [])
+        ck.cover('client: oversized then noop', True)
+
+
 def run(tier, seed, replay_path=None):
     ck = Check('C13', tier, seed)
     if replay_path:
@@ -221,6 +293,7 @@ def run(tier, seed, replay_path=None):
         ck.cover('handler: oversized answered', True)
     # (3) socket
     socket_checks(ck, tier)
+    client_level(ck, tier)
     for need in ('decoder: oversized', 'handler: oversized answered', 'skipped cleanly (silent)',
                  'body entirely in the first read, with followers', 'more than half of the body in the first read', 'nothing of the body in the first read'):
         ck.covers.setdefault(need, False)
